@@ -179,10 +179,13 @@ class Interp:
         self.on_call = on_call      # hook(interp, fname, fval, args, kwargs)
         self.on_attr = on_attr      # hook(interp, base, name) -> value|None
         self.decide = decide        # hook(interp, term) -> bool|None
-        self.pure_calls = set(pure_calls)
+        self.pure_calls = set(pure_calls) | {
+            'datetime.datetime', 'datetime.timedelta', 'datetime.date',
+            'datetime.timezone', 'fractions.Fraction', 'decimal.Decimal'}
         self.on_method = None       # hook(term, name, args, kwargs)
         self.stubs = {}             # in-repo qualname -> behaviour
         self.on_yield = None        # hook(interp, value) for generators
+        self.pure_methods = set()   # method names kept as pure terms
         self.ret_types = {'unicodedata.normalize': 'str', 're.sub': 'str',
                           're.Pattern.sub': 'str'}
         self.types = {}             # term -> type tag
